@@ -65,6 +65,9 @@ PeakRec(p) ==
   [p |-> p, tp_raw |-> TpRaw(vF, p), fp_smooth |-> Div(VertexF(vF, vE, ND, p), Q(20, 1)),
    win |-> SetToSeqOrd(AlphaWin(vF, fpn, fpd)), pos |-> SetToSeqOrd(AlphaPos(vF, fpn, fpd)),
    alpha |-> AlphaOf(vF, vE, ND, DDw, fpn, fpd),
+   \* smooth = False: the discrete peak frequency F[p] is the one alpha and gamma are evaluated at
+   alpha_raw |-> AlphaOf(vF, vE, ND, DDw, vF[p], 1),
+   gamma_noscale_raw |-> GammaRaw(vF, vE, ND, DDw, vF[p], 1, S0(vE, p, ND)),
    gamma_raw |-> GammaRaw(vF, vE, ND, DDw, fpn, fpd, S0(vE, p, ND)),
    gamma_raw_at_max |-> GammaRaw(vF, vE, ND, DDw, fpn, fpd, SfMaxNum(vF, vE, ND)),
    dpm |-> IF ND = 0 THEN NaNTok ELSE Dpm(vE, vD, p),
